@@ -31,36 +31,55 @@ FRAGS = ["whole", "whole", "rand", "byte1"]
 
 
 def consts(v, scc="{TRUE, FALSE}", scs="{TRUE, FALSE}", big="{FALSE}", send="{0, 1, 2}",
-           recv="{1, 2}", maxsend=1, maxrecv=2, maxcut=1, cutfrom="{0}") -> dict[str, str]:
+           recv="{1, 2}", maxsend=1, maxrecv=2, maxcut=1, cutfrom="{0}", maxafter=2) -> dict[str, str]:
     return {"V": str(v), "SCC": scc, "SCS": scs, "BIG": big, "SendSizes": send, "RecvSizes": recv,
-            "MaxSend": str(maxsend), "MaxRecv": str(maxrecv), "MaxCut": str(maxcut), "CutFrom": cutfrom}
+            "MaxSend": str(maxsend), "MaxRecv": str(maxrecv), "MaxCut": str(maxcut), "CutFrom": cutfrom,
+            "MaxAfter": str(maxafter)}
 
 
 BIGSIM = dict(big="{TRUE, FALSE}", send="{0, 1, 2, 3}", recv="{1, 2, 3}", maxsend=3, maxrecv=4,
               cutfrom="{0, 3, 5, 7, 9, 11, 13, 16, 20, 99}")
 
+# several TLS records per send(): 5 and 13 full records = 81920 and 212992 bytes of plaintext, i.e. more
+# than 64 KiB of ciphertext produced by ONE engine call, in both directions, followed by whatever the
+# random walk chooses (close, the peer's reply, a truncation ...)
+HUGESIM = dict(big="{TRUE}", send="{0, 2, 5, 13}", recv="{1, 2, 3}", maxsend=2, maxrecv=6,
+               cutfrom="{0, 5, 9, 13, 20, 30, 99}")
+HUGECHECK = dict(big="{TRUE}", send="{5}", recv="{1}", maxsend=1, maxrecv=3)     # MaxAfter = 2
+TLC_WORKER_BUDGET = 6       # TLC workers running at any one time (shared machine)
+
 # (name, constants, mode, number of schedules to take (None = all), TLC workers)
 #   mode "check": exhaustive, invariants only;  "emit": exhaustive + history on every edge;
 #   "sim": random behaviours of a configuration too large to enumerate in the time of the tier
 QUICK = [
-    ("q12-check", consts(12, send="{0, 2}", recv="{1, 2}", maxsend=2, maxrecv=2, scs="{TRUE}"), "check", None, 4),
-    ("q13-check", consts(13, send="{0, 2}", recv="{1, 2}", maxsend=2, maxrecv=2, scc="{TRUE}"), "check", None, 4),
-    ("q12-graph", consts(12, scs="{TRUE}"), "emit", 300, 1),
-    ("q13-graph", consts(13, scc="{TRUE}", send="{0, 2}"), "emit", 300, 1),
+    ("q12-check", consts(12, send="{0, 2}", recv="{1, 2}", maxsend=2, maxrecv=2, scs="{TRUE}", maxafter=1),
+     "check", None, 2),
+    ("q13-check", consts(13, send="{0, 2}", recv="{1, 2}", maxsend=2, maxrecv=2, scc="{TRUE}", maxafter=1),
+     "check", None, 2),
+    ("q12-graph", consts(12, scs="{TRUE}", maxafter=1), "emit", 300, 1),
+    ("q13-graph", consts(13, scc="{TRUE}", send="{0, 2}", maxafter=1), "emit", 300, 1),
     ("q12-sim", consts(12, **BIGSIM), "sim", 250, 1),
     ("q13-sim", consts(13, **BIGSIM), "sim", 250, 1),
+    ("q12-hugesim", consts(12, **HUGESIM), "sim", 80, 1),
+    ("q13-hugesim", consts(13, **HUGESIM), "sim", 80, 1),
+    ("q12-hugecheck", consts(12, scs="{TRUE}", **HUGECHECK), "check", None, 2),
+    ("q13-hugecheck", consts(13, scc="{TRUE}", **HUGECHECK), "check", None, 2),
 ]
 THOROUGH = [
-    ("t12-check", consts(12, send="{0, 1, 3}", recv="{1, 3}", maxsend=2, maxrecv=3), "check", None, 4),
-    ("t13-check", consts(13, send="{0, 1, 3}", recv="{1, 3}", maxsend=2, maxrecv=3), "check", None, 4),
-    ("t13-check3", consts(13, scc="{TRUE}", scs="{TRUE}", send="{1, 3}", recv="{1, 2}", maxsend=3, maxrecv=3),
-     "check", None, 4),
+    ("t12-check", consts(12, send="{0, 1, 3}", recv="{1, 3}", maxsend=2, maxrecv=3, maxafter=1), "check", None, 2),
+    ("t13-check", consts(13, send="{0, 1, 3}", recv="{1, 3}", maxsend=2, maxrecv=3, maxafter=1), "check", None, 2),
+    ("t13-check3", consts(13, scc="{TRUE}", scs="{TRUE}", send="{1, 3}", recv="{1, 2}", maxsend=3, maxrecv=3, maxafter=1),
+     "check", None, 2),
     ("t12-checkbig", consts(12, scc="{TRUE}", big="{TRUE}", send="{0, 2}", recv="{1, 2}", maxsend=2, maxrecv=3,
-                            maxcut=2), "check", None, 4),
-    ("t12-graph", consts(12), "emit", 5000, 1),
-    ("t13-graph", consts(13), "emit", 5000, 1),
+                            maxcut=2, maxafter=1), "check", None, 2),
+    ("t12-graph", consts(12, maxafter=1), "emit", 5000, 1),
+    ("t13-graph", consts(13, maxafter=1), "emit", 5000, 1),
     ("t12-sim", consts(12, **BIGSIM), "sim", 5000, 1),
     ("t13-sim", consts(13, **BIGSIM), "sim", 5000, 1),
+    ("t12-hugesim", consts(12, **HUGESIM), "sim", 600, 1),
+    ("t13-hugesim", consts(13, **HUGESIM), "sim", 600, 1),
+    ("t12-hugecheck", consts(12, **HUGECHECK), "check", None, 2),
+    ("t13-hugecheck", consts(13, **HUGECHECK), "check", None, 2),
 ]
 
 ASSUMPTIONS = [
@@ -70,7 +89,11 @@ ASSUMPTIONS = [
     "the transport only re-chunks, delays and truncates; it never corrupts, reorders or fails a send",
     "one application task per stream (no concurrent send/receive on one TLSStream), asyncio backend",
     "exhaustive only within the stated constants; abstract units are instantiated with a few byte sizes "
-    "(1..5461 bytes per unit, 16384-byte full records) and split offsets chosen by the seed",
+    "(1..5461 bytes per unit, 16384-byte full records; one send() is at most 13 full records = 212992 "
+    "bytes) and split offsets chosen by the seed",
+    "the end of a stream is observed at most MaxAfter + 1 times by receive()/send() before aclose(); nothing "
+    "is called after aclose(); the result of aclose() after a reported truncation is not judged "
+    "(notes/finding_C17.md)",
 ]
 
 
@@ -100,6 +123,27 @@ def _decode(pl: dict) -> dict:
     keys = ("pc", "st", "wrap", "got", "endr", "closer", "closed")
     return {"v": pl["v"], "cfg": {"sc": {"c": c[0], "s": c[1]}, "big": {"c": c[2], "s": c[3]}}, "h": h,
             "fin": {x: dict(zip(keys, pl["fin"][x])) for x in "cs"}}
+
+
+class _Budget:
+    """At most TLC_WORKER_BUDGET TLC workers at a time."""
+
+    def __init__(self, n: int) -> None:
+        import threading
+
+        self.free = n
+        self.cv = threading.Condition()
+
+    def run(self, n: int, fn):
+        with self.cv:
+            self.cv.wait_for(lambda: self.free >= n)
+            self.free -= n
+        try:
+            return fn()
+        finally:
+            with self.cv:
+                self.free += n
+                self.cv.notify_all()
 
 
 def _tlc_job(job: tuple, seed: int) -> tuple:
@@ -137,8 +181,9 @@ def generate(tier: str, seed: int, rep: core.Report) -> list[dict]:
         scheds.append(s)
 
     jobs = QUICK if tier == "quick" else THOROUGH
-    with ThreadPoolExecutor(max_workers=4) as ex:      # TLC runs side by side (<= 10 TLC workers)
-        done = list(ex.map(lambda j: _tlc_job(j, seed), jobs))
+    budget = _Budget(TLC_WORKER_BUDGET)
+    with ThreadPoolExecutor(max_workers=len(jobs)) as ex:      # TLC runs side by side within the budget
+        done = list(ex.map(lambda j: budget.run(j[4], lambda: _tlc_job(j, seed)), jobs))
     for (name, c, mode, take, _w), r in done:
         if mode == "check":
             rep.add_model(f"TlsPump/{name}", r, mode="exhaustive", constants=c)
@@ -204,6 +249,7 @@ def judge(scheds: list[dict], results: list[dict], rep: core.Report, tag: str) -
     rep.traces += len(verdicts)
     cuts: Counter = Counter()
     ends: Counter = Counter()
+    again: Counter = Counter()
     nontrivial = 0
     for v in verdicts:
         i = v["id"]
@@ -211,9 +257,16 @@ def judge(scheds: list[dict], results: list[dict], rep: core.Report, tag: str) -
         for c in r["flags"]["cuts"]:
             cuts[c] += 1
         data = sum(1 for e in r["events"] if e["ev"] == "end" and e.get("res") == "data")
+        raised: set[str] = set()
         for e in r["events"]:
             if e["ev"] == "end" and e["op"] in ("wrap", "recv") and e["res"] not in ("ok", "data"):
                 ends[f"{e['op']}:{e['res']}"] += 1
+            if e["ev"] == "end" and e["op"] in ("send", "recv") and e["s"] in raised:
+                again[f"{e['op']}:{e['res']}"] += 1      # the end observed once more
+            if e["ev"] == "end" and e["op"] in ("send", "recv") and e["res"] not in ("ok", "data"):
+                raised.add(e["s"])
+            if e["ev"] == "start" and e["op"] == "send" and e["n"] > 65536:
+                rep.extra["sends_over_64KiB"] = rep.extra.get("sends_over_64KiB", 0) + 1
         if data or r["flags"]["cuts"]:
             nontrivial += 1
         if v["bad"]:
@@ -233,6 +286,8 @@ def judge(scheds: list[dict], results: list[dict], rep: core.Report, tag: str) -
         rep.extra.setdefault("eof_positions", {})[k] = rep.extra.get("eof_positions", {}).get(k, 0) + n
     for k, n in ends.items():
         rep.extra.setdefault("ends", {})[k] = rep.extra.get("ends", {}).get(k, 0) + n
+    for k, n in again.items():
+        rep.extra.setdefault("calls_after_the_end", {})[k] = rep.extra.get("calls_after_the_end", {}).get(k, 0) + n
 
 
 def main(tier: str, seed: int) -> int:
@@ -254,7 +309,8 @@ def main(tier: str, seed: int) -> int:
     rep.rule = ("schedules = maximal histories of choices (application calls, units handed over per "
                 "transport.receive, end-of-file positions) of TlsPump.tla: one per edge of the exhaustive "
                 "state graph of the small configurations (sampled by the seed when more than the tier "
-                "takes) plus -simulate behaviours of the large ones, deduplicated, each instantiated with "
+                "takes) plus -simulate behaviours of the large ones (up to 13 full records per send; receive / "
+                "send called again after the end was reported), deduplicated, each instantiated with "
                 "a byte size per unit, split offsets and a fragmentation style by the seed; "
                 "non-trivial = at least one receive returned data or the transport was cut / ended")
     return rep.finish()
